@@ -179,7 +179,7 @@ func resolveFuncValue(v ssa.Value, d int) *ssa.Function {
 	case *ssa.Call:
 		// a function value built by an in-package constructor (eg.Go(newContextWorker(ctx, &x, n, f))): the literal every
 		// return of the constructor yields
-		cal := x.Call.StaticCallee()
+		cal := origin(x.Call.StaticCallee()) // the generic body when the constructor is an instance (lessFromCompare[T])
 		if cal == nil || cal.Blocks == nil || cal.Signature.Results().Len() != 1 || curCtx == nil || !curCtx.inModule(cal) {
 			return nil
 		}
@@ -195,7 +195,15 @@ func resolveFuncValue(v ssa.Value, d int) *ssa.Function {
 					continue
 				}
 				nRet++
-				if mc, ok := returnedValue(ret, 0).(*ssa.MakeClosure); ok {
+				rv := returnedValue(ret, 0)
+				for {
+					ct, isCT := rv.(*ssa.ChangeType) // func literal returned as a named function type (xsort.Less[T])
+					if !isCT {
+						break
+					}
+					rv = ct.X
+				}
+				if mc, ok := rv.(*ssa.MakeClosure); ok {
 					if f, ok := mc.Fn.(*ssa.Function); ok && f.Parent() == cal {
 						lit = f
 					}
